@@ -605,6 +605,7 @@ class _CompressionMiddleware:
             return
 
         size: int | None = None
+        cur = 0
         if hasattr(stream, "seek") and hasattr(stream, "tell"):
             cur = stream.tell()
             try:
@@ -628,6 +629,9 @@ class _CompressionMiddleware:
                 if not body:
                     return
                 compressed = cctx.compress(body)
+                if len(compressed) >= len(body):
+                    self._keep_identity(resp, body)
+                    return
                 del body
             else:
                 out = BytesIO()
@@ -648,6 +652,9 @@ class _CompressionMiddleware:
                 if not body:
                     return
                 compressed = co.compress(body) + co.flush(zlib.Z_FINISH)
+                if len(compressed) >= len(body):
+                    self._keep_identity(resp, body)
+                    return
                 del body
             else:
                 pieces: list[bytes] = []
@@ -668,12 +675,26 @@ class _CompressionMiddleware:
             # mypy can't see it, since IDENTITY is a member of the enum.
             return
 
+        if size is not None and len(compressed) >= size:
+            # Coding made the body no smaller (tiny or incompressible payloads
+            # grow by the frame overhead).  The handlers sized the identity
+            # body against max_response_bytes; sending a longer coded one would
+            # put more on the wire than the cap they enforced, for no gain.
+            stream.seek(cur)
+            return
+
         resp.data = compressed
         resp.stream = None
         if getattr(req.context, "use_custom_encoding_header", False):
             resp.set_header("X-VGI-Content-Encoding", encoding.value)
         else:
             resp.set_header("Content-Encoding", encoding.value)
+
+    @staticmethod
+    def _keep_identity(resp: falcon.Response, body: bytes) -> None:
+        """Send an already-read, non-seekable *body* as is (coding did not shrink it)."""
+        resp.data = body
+        resp.stream = None
 
 
 class _CorsExtrasMiddleware:
